@@ -177,6 +177,10 @@ func runNodeReorg(rng *rand.Rand, n int, out *Out, args []string) {
 			sentinelFirsts = false
 		case "noaccelerator":
 			acceleratorFirsts = false
+		case "nospecials":
+			specials = false
+		case "nodeepspecials":
+			deepSpecials = false
 		}
 	}
 	if len(args) > 0 && args[0] == "inproc" {
@@ -184,6 +188,20 @@ func runNodeReorg(rng *rand.Rand, n int, out *Out, args []string) {
 			out.Emit(M{"k": "note", "experiment": i})
 			nodeReorg(rng, out)
 			out.W.Flush()
+			// first writes that need a long branch / a long preparation: one experiment each per run (special.go)
+			if specials && i == 0 {
+				out.Emit(M{"k": "note", "experiment": "special epoch-history"})
+				specialReorg(rng, out, epochHistorySpecial(false))
+				if deepSpecials && n > 100 { // an abandoned branch of 70-80 momentums: thorough tier
+					specialReorg(rng, out, epochHistorySpecial(true))
+				}
+				out.W.Flush()
+			}
+			if specials && i == 1 {
+				out.Emit(M{"k": "note", "experiment": "special bridge"})
+				specialReorg(rng, out, bridgeSpecial)
+				out.W.Flush()
+			}
 		}
 		return
 	}
@@ -237,6 +255,8 @@ func min(a, b int) int {
 	}
 	return b
 }
+
+var specials, deepSpecials = true, true
 
 var experimentNo int // experiments with first writes so far (every sixth one runs with the accelerator spork enforced)
 
